@@ -1,0 +1,436 @@
+//! Verification hooks (cargo feature `verif_hooks`, off by default).
+//!
+//! Nothing in here is reachable unless the feature is enabled. The module only
+//! forwards to crate-private items so that an external monitoring harness can
+//! drive the real implementation: a scriptable timestamp-counter source,
+//! failpoints (delay/observation callbacks), a `Bencher` constructor, and thin
+//! wrappers around crate-private pure functions.
+
+#![allow(missing_docs, clippy::missing_safety_doc)]
+
+use std::{
+    num::{NonZeroU64, NonZeroUsize},
+    panic::{catch_unwind, AssertUnwindSafe},
+    sync::atomic::{AtomicU64, AtomicUsize, Ordering},
+    time::Duration,
+};
+
+use crate::{
+    alloc::{AllocOp, ThreadAllocInfo},
+    benchmark::{BenchContext, BenchOptions},
+    config::{
+        filter::{Filter, FilterSet},
+        Action, SortingAttr,
+    },
+    counter::{AnyCounter, BytesFormat, KnownCounterKind},
+    divan::SharedContext,
+    stats::{Stats, StatsSet},
+    time::{FineDuration, Timer, TscTimestamp},
+    util::thread::ThreadPool,
+    Bencher,
+};
+
+// ---------------------------------------------------------------------------
+// Virtual timestamp counter
+// ---------------------------------------------------------------------------
+
+static VTSC_FREQUENCY: AtomicU64 = AtomicU64::new(0);
+static VTSC_READ: AtomicUsize = AtomicUsize::new(0);
+
+/// Installs a virtual timestamp-counter source. `read(is_end)` is called for
+/// every `TscTimestamp::start()` (`false`) and `TscTimestamp::end()` (`true`).
+pub fn install_virtual_tsc(frequency: u64, read: fn(bool) -> u64) {
+    assert!(frequency != 0);
+    VTSC_READ.store(read as usize, Ordering::SeqCst);
+    VTSC_FREQUENCY.store(frequency, Ordering::SeqCst);
+}
+
+/// Removes the virtual timestamp-counter source.
+pub fn remove_virtual_tsc() {
+    VTSC_FREQUENCY.store(0, Ordering::SeqCst);
+    VTSC_READ.store(0, Ordering::SeqCst);
+}
+
+#[inline]
+pub(crate) fn virtual_tsc_frequency() -> Option<NonZeroU64> {
+    NonZeroU64::new(VTSC_FREQUENCY.load(Ordering::Relaxed))
+}
+
+#[inline]
+pub(crate) fn virtual_tsc_installed() -> bool {
+    VTSC_FREQUENCY.load(Ordering::Relaxed) != 0
+}
+
+#[inline]
+pub(crate) fn virtual_tsc_read(is_end: bool) -> Option<u64> {
+    let read = VTSC_READ.load(Ordering::Relaxed);
+    if read == 0 {
+        return None;
+    }
+    // SAFETY: Only ever stored from a `fn(bool) -> u64`.
+    let read: fn(bool) -> u64 = unsafe { std::mem::transmute(read) };
+    Some(read(is_end))
+}
+
+// ---------------------------------------------------------------------------
+// Failpoints
+// ---------------------------------------------------------------------------
+
+static POINT: AtomicUsize = AtomicUsize::new(0);
+
+/// Installs the failpoint callback (called with the failpoint's id).
+pub fn install_point(f: fn(u32)) {
+    POINT.store(f as usize, Ordering::SeqCst);
+}
+
+pub fn remove_point() {
+    POINT.store(0, Ordering::SeqCst);
+}
+
+#[inline]
+pub(crate) fn point(id: u32) {
+    let f = POINT.load(Ordering::Relaxed);
+    if f != 0 {
+        // SAFETY: Only ever stored from a `fn(u32)`.
+        let f: fn(u32) = unsafe { std::mem::transmute(f) };
+        f(id);
+    }
+}
+
+// ---------------------------------------------------------------------------
+// Sample loop
+// ---------------------------------------------------------------------------
+
+pub struct LoopConfig {
+    pub test: bool,
+    pub tsc: bool,
+    pub threads: usize,
+    pub options: BenchOptions<'static>,
+}
+
+/// Plain-data copy of `ThreadAllocInfo`.
+///
+/// `tallies` is indexed grow, shrink, alloc, dealloc; each is (count, size).
+#[derive(Clone, Copy, Debug, Default, PartialEq, Eq)]
+pub struct TallyCopy {
+    pub tallies: [(u64, u64); 4],
+    pub current_count: i64,
+    pub max_count: i64,
+    pub current_size: i64,
+    pub max_size: i64,
+}
+
+impl TallyCopy {
+    fn from_info(info: &ThreadAllocInfo) -> Self {
+        let t = |op: AllocOp| {
+            let t = info.tallies.get(op);
+            (t.count as u64, t.size as u64)
+        };
+        Self {
+            tallies: [
+                t(AllocOp::Grow),
+                t(AllocOp::Shrink),
+                t(AllocOp::Alloc),
+                t(AllocOp::Dealloc),
+            ],
+            current_count: info.current_count as i64,
+            max_count: info.max_count as i64,
+            current_size: info.current_size as i64,
+            max_size: info.max_size as i64,
+        }
+    }
+}
+
+/// Plain-data copy of `Stats`. Sets are ordered fastest, slowest, median, mean.
+#[derive(Clone, Debug, Default)]
+pub struct StatsCopy {
+    pub sample_count: u32,
+    pub iter_count: u64,
+    pub time: [u128; 4],
+    pub max_alloc_count: [f64; 4],
+    pub max_alloc_size: [f64; 4],
+    /// Indexed grow, shrink, alloc, dealloc.
+    pub alloc_count: [[f64; 4]; 4],
+    pub alloc_size: [[f64; 4]; 4],
+    /// Indexed bytes, chars, cycles, items.
+    pub counts: [Option<[u64; 4]>; 4],
+}
+
+fn set4<T: Copy>(s: &StatsSet<T>) -> [T; 4] {
+    [s.fastest, s.slowest, s.median, s.mean]
+}
+
+impl StatsCopy {
+    fn from_stats(s: &Stats) -> Self {
+        let ops = [AllocOp::Grow, AllocOp::Shrink, AllocOp::Alloc, AllocOp::Dealloc];
+        Self {
+            sample_count: s.sample_count,
+            iter_count: s.iter_count,
+            time: set4(&s.time).map(|d| d.picos),
+            max_alloc_count: set4(&s.max_alloc.count),
+            max_alloc_size: set4(&s.max_alloc.size),
+            alloc_count: ops.map(|op| set4(&s.alloc_tallies.get(op).count)),
+            alloc_size: ops.map(|op| set4(&s.alloc_tallies.get(op).size)),
+            counts: KnownCounterKind::ALL
+                .map(|k| s.get_counts(k).map(|c| set4(c).map(|c| c as u64))),
+        }
+    }
+}
+
+#[derive(Default)]
+pub struct LoopReport {
+    pub did_run: bool,
+    pub sample_size: u32,
+    pub samples_ps: Vec<u128>,
+    pub samples_capacity: usize,
+    /// `(sample index, tally)` for every stored allocation record.
+    pub alloc: Vec<(u32, TallyCopy)>,
+    /// Indexed bytes, chars, cycles, items.
+    pub counters: [Vec<u64>; 4],
+    pub uses_input_counts: [bool; 4],
+    /// `None` when statistics were not computed (test mode / did not run),
+    /// `Err(message)` when computing them panicked.
+    pub stats: Option<Result<StatsCopy, String>>,
+}
+
+/// Builds the crate-private contexts, hands `f` a genuine `Bencher`, and
+/// returns plain-data copies of what the loop recorded.
+pub fn run_bencher(
+    config: &LoopConfig,
+    f: &mut dyn FnMut(Bencher),
+) -> LoopReport {
+    let action = if config.test { Action::Test } else { Action::Bench };
+
+    let timer = if config.tsc {
+        Timer::get_tsc().unwrap_or(Timer::Os)
+    } else {
+        Timer::Os
+    };
+
+    let shared_context =
+        SharedContext { action, timer, thread_pool: ThreadPool::new() };
+
+    let thread_count =
+        NonZeroUsize::new(config.threads).unwrap_or(NonZeroUsize::MIN);
+
+    let mut context =
+        BenchContext::new(&shared_context, &config.options, thread_count);
+
+    f(Bencher::new(&mut context));
+
+    let mut report = LoopReport { did_run: context.did_run, ..Default::default() };
+
+    {
+        let samples = context.verif_samples();
+        report.sample_size = samples.sample_size;
+        report.samples_ps =
+            samples.time_samples.iter().map(|s| s.duration.picos).collect();
+        report.samples_capacity = samples.time_samples.capacity();
+        report.alloc = samples
+            .alloc_info_by_sample
+            .iter()
+            .map(|(&i, info)| (i, TallyCopy::from_info(info)))
+            .collect();
+        report.alloc.sort_by_key(|&(i, _)| i);
+
+        let counters = context.verif_counters();
+        for kind in KnownCounterKind::ALL {
+            report.counters[kind as usize] =
+                counters.counts(kind).iter().map(|&c| c as u64).collect();
+            report.uses_input_counts[kind as usize] =
+                counters.uses_input_counts(kind);
+        }
+    }
+
+    if context.did_run && action.is_bench() {
+        let stats = catch_unwind(AssertUnwindSafe(|| context.compute_stats()));
+        report.stats = Some(match stats {
+            Ok(stats) => Ok(StatsCopy::from_stats(&stats)),
+            Err(error) => Err(panic_message(&*error)),
+        });
+    }
+
+    report
+}
+
+fn panic_message(error: &(dyn std::any::Any + Send)) -> String {
+    if let Some(s) = error.downcast_ref::<&str>() {
+        s.to_string()
+    } else if let Some(s) = error.downcast_ref::<String>() {
+        s.clone()
+    } else {
+        "<non-string panic>".to_owned()
+    }
+}
+
+// ---------------------------------------------------------------------------
+// Thread pool
+// ---------------------------------------------------------------------------
+
+pub struct Pool(ThreadPool);
+
+impl Pool {
+    pub const fn new() -> Self {
+        Self(ThreadPool::new())
+    }
+
+    #[inline]
+    pub fn broadcast<F>(&self, aux_threads: usize, task: F)
+    where
+        F: Sync + Fn(usize),
+    {
+        self.0.broadcast(aux_threads, task)
+    }
+
+    #[inline]
+    pub fn par_extend<T, F>(
+        &self,
+        vec: &mut Vec<Option<T>>,
+        aux_threads: usize,
+        task: F,
+    ) where
+        F: Sync + Fn(usize) -> T,
+        T: Sync + Send,
+    {
+        self.0.par_extend(vec, aux_threads, task)
+    }
+
+    pub fn thread_count(&self) -> usize {
+        self.0.verif_thread_count()
+    }
+}
+
+// ---------------------------------------------------------------------------
+// Allocation tallies
+// ---------------------------------------------------------------------------
+
+/// Copy of the current thread's tally, if the thread has one.
+pub fn thread_tally() -> Option<TallyCopy> {
+    let info = ThreadAllocInfo::try_current()?;
+    // SAFETY: Only the current thread accesses its own instance.
+    Some(TallyCopy::from_info(unsafe { info.as_ref() }))
+}
+
+/// Clears the current thread's tally the way the sample loop does.
+pub fn clear_thread_tally() -> bool {
+    match ThreadAllocInfo::current() {
+        Some(mut info) => {
+            // SAFETY: Only the current thread accesses its own instance.
+            unsafe { info.as_mut() }.clear();
+            true
+        }
+        None => false,
+    }
+}
+
+// ---------------------------------------------------------------------------
+// Pure functions
+// ---------------------------------------------------------------------------
+
+pub fn tsc_duration_since(later: u64, earlier: u64, frequency: u64) -> u128 {
+    TscTimestamp { value: later }
+        .duration_since(
+            TscTimestamp { value: earlier },
+            NonZeroU64::new(frequency).unwrap(),
+        )
+        .picos
+}
+
+pub fn fine_from_duration(duration: Duration) -> u128 {
+    FineDuration::from(duration).picos
+}
+
+/// `Timer::precision()` of a TSC timer; with a virtual source installed this
+/// runs the real measurement on every call.
+pub fn tsc_timer_precision(frequency: u64) -> u128 {
+    Timer::Tsc { frequency: NonZeroU64::new(frequency).unwrap() }
+        .precision()
+        .picos
+}
+
+pub fn fmt_duration(picos: u128) -> String {
+    FineDuration { picos }.to_string()
+}
+
+fn bytes_format(binary: bool) -> BytesFormat {
+    if binary {
+        BytesFormat::Binary
+    } else {
+        BytesFormat::Decimal
+    }
+}
+
+/// `kind` indexes bytes, chars, cycles, items.
+pub fn fmt_throughput(kind: usize, count: u64, picos: u128, binary: bool) -> String {
+    AnyCounter::known(KnownCounterKind::ALL[kind], count as _)
+        .display_throughput(FineDuration { picos }, bytes_format(binary))
+        .to_string()
+}
+
+pub fn fmt_bytes(value: f64, binary: bool) -> String {
+    crate::util::fmt::format_bytes(value, 4, bytes_format(binary))
+}
+
+pub fn fmt_f64(value: f64, sig_figs: usize) -> String {
+    crate::util::fmt::format_f64(value, sig_figs)
+}
+
+pub fn natural_cmp(a: &str, b: &str) -> std::cmp::Ordering {
+    crate::util::sort::natural_cmp(a, b)
+}
+
+fn sorting_attr(attr: usize) -> SortingAttr {
+    [SortingAttr::Kind, SortingAttr::Name, SortingAttr::Location][attr]
+}
+
+/// `attr` indexes kind, name, location. `a` and `b` must point into the same
+/// slice for the location comparison to be meaningful.
+pub fn cmp_arg_names(attr: usize, a: &&str, b: &&str) -> std::cmp::Ordering {
+    sorting_attr(attr).cmp_bench_arg_names(a, b)
+}
+
+pub struct FilterProbe(FilterSet);
+
+impl FilterProbe {
+    pub fn new() -> Self {
+        Self(FilterSet::default())
+    }
+
+    /// Adds a filter; returns `false` if `regex` is set and it fails to parse.
+    pub fn add(&mut self, pattern: &str, regex: bool, inclusive: bool) -> bool {
+        let filter = if regex {
+            match regex::Regex::new(pattern) {
+                Ok(regex) => Filter::Regex(regex),
+                Err(_) => return false,
+            }
+        } else {
+            Filter::Exact(pattern.to_owned())
+        };
+        if inclusive {
+            self.0.include(filter);
+        } else {
+            self.0.exclude(filter);
+        }
+        true
+    }
+
+    pub fn is_match(&self, path: &str) -> bool {
+        self.0.is_match(path)
+    }
+}
+
+/// Names held by a `BenchArgsRunner`.
+pub fn args_names(
+    runner: &crate::benchmark::BenchArgsRunner,
+) -> &'static [&'static str] {
+    runner.arg_names()
+}
+
+/// Runs a `BenchArgsRunner` for one argument index.
+pub fn args_bench(
+    runner: &crate::benchmark::BenchArgsRunner,
+    bencher: Bencher,
+    index: usize,
+) {
+    runner.bench(bencher, index)
+}
